@@ -777,6 +777,41 @@ func runC14(c *Ctx) {
 		r2.Discharged++
 	}
 	r2.Samples = append(r2.Samples, fmt.Sprintf("%d dereferences of possibly-nil values in the coercer are guarded (links of validated documents are non-nil by precondition)", checked-len(fs)))
+	// a single-result type assertion panics when the dynamic type differs. What comes out of reflect.Value.Interface() is
+	// the caller's value: its Kind may have been tested, its type has not (json.Number and every named string type have
+	// kind String) — only the comma-ok form and type switches are total there.
+	nAssert := 0
+	for _, fn := range fns {
+		allInstrs(fn, func(in ssa.Instruction) {
+			ta, ok := in.(*ssa.TypeAssert)
+			if !ok || ta.CommaOk {
+				return
+			}
+			src := unspill(stripChange(ta.X))
+			fromReflect := false
+			if call, ok := src.(*ssa.Call); ok {
+				if g := call.Common().StaticCallee(); g != nil && g.Pkg != nil && g.Pkg.Pkg.Path() == "reflect" && g.Name() == "Interface" {
+					fromReflect = true
+				}
+			}
+			if !fromReflect {
+				return
+			}
+			// the same test made in comma-ok form on the way here
+			for _, cd := range condsAt(ta.Block()) {
+				if ex, ok := cd.V.(*ssa.Extract); ok && ex.Index == 1 && cd.True {
+					if t2, ok := ex.Tuple.(*ssa.TypeAssert); ok && t2.CommaOk && unspill(stripChange(t2.X)) == src && types.Identical(t2.AssertedType, ta.AssertedType) {
+						return
+					}
+				}
+			}
+			nAssert++
+			r2.Fail(ta.Pos(), p.FuncName(fn), fmt.Sprintf("single-result assertion .(%s) on a reflect Interface() value", types.TypeString(ta.AssertedType, func(*types.Package) string { return "" })), fmt.Sprintf("the value comes from the caller's variables; a kind test does not fix its type (json.Number, or any named type of that kind, passes a Kind()==String test) and the single-result assertion to %s panics on it — coercion crashes instead of returning an error", ta.AssertedType))
+		})
+	}
+	if nAssert == 0 {
+		r2.OK("no single-result type assertion on a reflect Interface() value in the coercer", "type tests on caller values are comma-ok or type switches")
+	}
 	inputKinds := []string{"ENUM", "INPUT_OBJECT", "SCALAR"}
 	allInstrs(vt, func(in ssa.Instruction) {
 		pn, ok := in.(*ssa.Panic)
